@@ -130,9 +130,14 @@ def run(ctx):
                     lo = any(c == lt(d, C(-1)) for c in conds); hi = any(c == gt(d, C(1)) for c in conds)
                     arg = C(-1) if lo else C(1) if hi else d
                     inside = (not lo and not hi and any(c == ge(d, C(-1)) for c in conds) and any(c == le(d, C(1)) for c in conds))
-                    ctx.ob('%s/path%d/clamped' % (key, i), lo or hi or inside, 'paths: the cosine is clamped to [-1,1] before acos (so the angle is in [0,pi])', w, 'd < -1 | -1 <= d <= 1 | d > 1', [str(c) for c in conds])
+                    # a clamp written with min/max instead of branches: one expression covering the three regions
+                    from ..sem import minmax
+                    mm = (not lo and not hi and not inside and not conds)
+                    if mm: arg = minmax('min', minmax('max', d, C(-1)), C(1))
+                    ctx.ob('%s/path%d/clamped' % (key, i), lo or hi or inside or mm, 'paths: the cosine is clamped to [-1,1] before acos (so the angle is in [0,pi])', w, 'd < -1 | -1 <= d <= 1 | d > 1, or min(max(d,-1),1)', [str(c) for c in conds])
                     ctx.same('%s/path%d/value' % (key, i), p.ret, fn('acos', arg) * scale, 'alg=: angle = acos(clamp(n(a) . n(b)))%s' % (' in degrees' if m['deg'] else ''), w)
-                    seen.add('lo' if lo else 'hi' if hi else 'in')
+                    if mm: seen |= {'lo', 'hi', 'in'}
+                    else: seen.add('lo' if lo else 'hi' if hi else 'in')
                 ctx.ob(key + '/outcomes', seen == {'lo', 'hi', 'in'}, 'paths: the three clamp outcomes', w, 3, sorted(seen))
             elif k == 'reflected':
                 dn = dot(A, Bv)
